@@ -10,7 +10,8 @@ from ..engines.enum import product, run_enum, replay_case
 from ..sys_array import viol
 
 ROWS = {'big1d': (512,), 'big2d': (16, 32), 'big3d': (8, 8, 8), 'small': (64,),
-        'mid': (500,)}     # 4000 B rows: larger than every text file Darr rewrites, smaller than the 4 KiB stdio buffer
+        'mid': (500,),
+        'scalar1d': ()}    # a one-dimensional array: chunks may also be zero-dimensional arrays and plain numbers     # 4000 B rows: larger than every text file Darr rewrites, smaller than the 4 KiB stdio buffer
 DT = np.dtype('<f8')
 README_FLOOR = 3900        # every text file Darr rewrites during recovery is smaller than this
 
@@ -72,8 +73,13 @@ def evaluate(case):
         items = chunks
     else:
         completed = pos
-        if kind in ('iter-raises', 'iter-valueerror'):
+        if kind in ('iter-raises', 'iter-valueerror', 'iter-abort'):
             items = None
+        elif kind == 'zerod':          # a valid but unusual chunk: a zero-dimensional array is one element
+            zc = np.array(7.25, dtype=DT)
+            items = chunks[:pos] + [zc] + chunks[pos:]
+            chunks = chunks[:pos] + [zc.reshape(1)] + chunks[pos:]
+            completed = len(chunks)
         else:
             items = chunks[:pos] + [bad_chunk(kind, rows)] + chunks[pos:]
     # ---- the call under fault -------------------------------------------------
@@ -82,7 +88,7 @@ def evaluate(case):
         call = lambda: a.append(arg)
     else:
         if items is None:
-            exc = faults.IterFault if kind == 'iter-raises' else ValueError
+            exc = {'iter-raises': faults.IterFault, 'iter-abort': faults.IterAbort}.get(kind, ValueError)
             arg = faults.faulty_iter(chunks, pos, exc=exc, as_generator=(entry == 'iterappend-gen'))
         elif entry == 'iterappend-gen':
             arg = (c for c in items)
@@ -102,11 +108,21 @@ def evaluate(case):
         orig = np.concatenate([orig, pre_chunk]).astype(DT)
         if kind == 'rlimit':
             return [], None, 0            # limits are computed for the plain entry points only
+    def outcome(fn):
+        try:
+            return outcome_of(fn)
+        except faults.IterAbort as e:      # not an Exception: arrives like KeyboardInterrupt
+            return 'raises', e
     if kind == 'rlimit':
         with faults.file_size_limit(L):
-            w, v = outcome_of(call)
+            w, v = outcome(call)
     else:
-        w, v = outcome_of(call)
+        w, v = outcome(call)
+    if kind == 'zerod' and w == 'raises':
+        # the chunk is acceptable; if the call fails all the same, it must fail cleanly: some whole prefix of the chunks
+        fw, fr = outcome_of(lambda: darr.Array(path)[:])
+        m = (len(fr) - len(orig)) if fw == 'returns' else 0
+        completed = max(0, min(m, len(chunks)))
     expected = np.concatenate([orig] + chunks[:completed]).astype(DT) if completed else orig
     V = []
     where = 'first chunk' if completed == 0 else 'later chunk'
@@ -118,7 +134,7 @@ def evaluate(case):
 
     def add(sym, msg):
         V.append(viol('faults', opname, pre, sym, f'{desc}: {msg}', kind=('write failure' if kind == 'rlimit' else kind)))
-    if w == 'returns':
+    if w == 'returns' and kind != 'zerod':
         add('call did not raise', 'the call returned normally')
     fw, fresh = outcome_of(lambda: darr.Array(path))
     if fw == 'raises':
@@ -145,7 +161,7 @@ def evaluate(case):
         if not ok:
             add('a subsequent ordinary append fails or lands wrongly', f'{av!r:.100}')
     rmtree(path)
-    fired = (w == 'raises')
+    fired = (w == 'raises') or kind == 'zerod'
     return V, ('fault', start, rows, entry, kind, where, fired, bool(case.get('inctx'))), 1
 
 
@@ -153,24 +169,30 @@ def build_cases(tier):
     q = tier == 'quick'
     cases = []
     rowsets = ['big1d', 'big2d', 'big3d', 'small', 'mid'] if not q else ['big1d', 'big2d', 'small', 'mid']
+    rowsets = rowsets + ['scalar1d']
     # non-I/O kinds
     for rows in rowsets:
         for start in ('empty', 'nonempty'):
             for n in (0, 1, 2, 3):
                 for pos in range(0, n + 1):
-                    for kind in ('iter-raises', 'iter-valueerror', 'badtrail', 'badrank', 'unconv', 'badtrail0', 'badzero'):
+                    for kind in ('iter-raises', 'iter-valueerror', 'iter-abort', 'badtrail', 'badrank', 'unconv', 'badtrail0',
+                                 'badzero') + (('zerod',) if rows == 'scalar1d' else ()):
+                        if rows == 'scalar1d' and kind in ('badtrail', 'badtrail0', 'badzero'):
+                            continue
                         for entry in ('iterappend-list', 'iterappend-gen'):
                             cases.append({'rows': rows, 'start': start, 'entry': entry, 'nchunks': n, 'kind': kind,
                                           'position': pos})
             for n in (1, 2):
                 for pos in range(0, n + 1):
-                    for kind in ('iter-raises', 'badtrail', 'unconv'):
+                    for kind in (('iter-raises', 'badtrail', 'unconv') if rows != 'scalar1d' else ('iter-raises', 'unconv')):
                         cases.append({'rows': rows, 'start': start, 'entry': 'iterappend-list', 'nchunks': n, 'kind': kind,
                                       'position': pos, 'inctx': True})
             for kind in ('badtrail', 'badrank', 'unconv', 'badtrail0', 'badzero'):
+                if rows == 'scalar1d' and kind in ('badtrail', 'badtrail0', 'badzero'):
+                    continue
                 cases.append({'rows': rows, 'start': start, 'entry': 'append', 'nchunks': 0, 'kind': kind, 'position': 0})
     # kernel-enforced write failure
-    for rows in rowsets:
+    for rows in [r for r in rowsets if r != 'scalar1d']:
         rb = rowbytes(rows)
         for start in ('empty', 'nonempty'):
             base = start_rows(rows, start) * rb
@@ -200,7 +222,7 @@ def run(tier):
     return run_enum(
         'C09', tier, 'dv.checks.c09:evaluate', cases, chunk=16, level='fault_enumeration', engine='faults',
         rule=('one deviation per execution: start {empty, non-empty} x row sizes {4 KiB rows in 1-D/2-D/3-D, 4000 B rows (below the stdio buffer), 512 B rows} x '
-              '0..3 chunks of 1-2 rows x failure position 0..n x kind {iterable raises a custom exception / ValueError, chunk '
+              '0..3 chunks of 1-2 rows x failure position 0..n x kind {iterable raises a custom exception / ValueError / a BaseException that is not an Exception, a zero-dimensional array as chunk of a 1-D array (valid: must succeed or fail cleanly), chunk '
               'of wrong trailing shape (also with zero rows / a zero extent), wrong rank, unconvertible element} x entry {append, iterappend(list), '
               'iterappend(generator), and the same inside an open_array() context after a completed append}; and kernel-enforced write failure (RLIMIT_FSIZE, SIGXFSZ ignored) at '
               + ('the offsets b-1, b, b+1, b+itemsize/2, b+itemsize, b+row/2, b+row-1, b+row, b+row+1 around every chunk '
